@@ -89,11 +89,10 @@ pub fn jobs(tier: Tier) -> Vec<Job> {
                 v.push(commit_job("c02-commit", c, &RunCfg::parallel(2), FINE, 1, true));
                 v.push(commit_job("c02-commit", c, &RunCfg::parallel(3), COARSE, 1, true));
             }
-            v.push(commit_job("c02-commit", &ds[0], &RunCfg::parallel(2), COARSE, 3, true));
             // the claim-to-lock windows need four deviations (seeded change C01-finality-lower-ts):
             // bound 4 on the chains whose re-executions add or drop write locations, 3 elsewhere
             for c in &ds {
-                let deep = matches!(c.name.as_str(), "late-write-chain" | "early-write-chain" | "nonce-chain3" | "funding-chain3");
+                let deep = matches!(c.name.as_str(), "late-write-chain" | "early-write-chain" | "indirect-chain3");
                 v.push(commit_job("c02-commit", c, &RunCfg::parallel(2), FOCUS_VALIDATION, if deep { 4 } else { 3 }, true));
             }
         }
